@@ -37,7 +37,7 @@ TOKENS = [
     "name=value", "a=b; c=d", "a=\"b;c\"", "=", "=b", "a", "$Version", "a=\\073",
     "multipart/form-data", "boundary=", "boundary=x", 'boundary="x"', "application/json", "application/x-www-form-urlencoded", "charset=", "charset=utf-16", "charset=\xff",
     "en-US", "en_us", "*;q=0", "de;q=x",
-    "for=1.2.3.4", "1.2.3.4", "1.2.3.4, 5.6.7.8", "unknown",
+    "for=1.2.3.4", "1.2.3.4", "1.2.3.4, 5.6.7.8", "unknown", "*=x", ", *=", '"a"b"',
     'profile="http://a/b"', ';level="1/2"', "text;", "/;", ";/",
 ]
 
@@ -220,16 +220,17 @@ def exercise(v):
             offers = ["gzip", "identity", "br", "x"]
         return (list(v), v.best, [v.quality(o) for o in offers], v.best_match(offers), [o in v for o in offers], v.find(offers[0]))
     if isinstance(v, ds.Authorization):
-        return (v.type, v.token, dict(v.parameters), v.username, v.password, v.get("realm"))
+        # (applications log these objects: printing belongs to using them)
+        return (v.type, v.token, dict(v.parameters), v.username, v.password, v.get("realm"), repr(v), str(v))
     if isinstance(v, ds.RequestCacheControl):
-        return (v.max_age, v.max_stale, v.min_fresh, v.no_cache, v.no_store, v.no_transform, v.only_if_cached, dict(v))
+        return (v.max_age, v.max_stale, v.min_fresh, v.no_cache, v.no_store, v.no_transform, v.only_if_cached, dict(v), repr(v), str(v))
     if isinstance(v, ds.ETags):
         tags = v.as_set(include_weak=True)
         if not all(isinstance(t_, str) for t_ in tags):
             raise TypeError(f"ETags holds a non-string tag: {sorted(map(repr, tags))}")
         return (v.star_tag, sorted(tags), "x" in v, v.contains_weak("x"), v.contains_raw('W/"x"'), bool(v), list(v))
     if isinstance(v, ds.IfRange):
-        return (v.etag, v.date)
+        return (v.etag, v.date, repr(v), str(v))
     if isinstance(v, ds.Range):
         return (v.units, v.ranges, v.range_for_length(10), v.range_for_length(0), v.range_for_length(None), v.make_content_range(10))
     if isinstance(v, ds.HeaderSet):
